@@ -149,6 +149,10 @@ def rsaDecReal (oaep : Option String) (k : RsaPriv) (ct : Bs) : Option Bs :=
 
 def pbkdf2Real (h : String) (pw salt : Bs) (iter : Int) (dkLen : Nat) : Option Bs :=
   if iter < 1 then none
+  -- the executable model does not perform more than 2^22 iterations: such a request is answered
+  -- "refused"; the implementation then differs (it runs into the harness watchdog), which is what
+  -- the C14 check reports
+  else if iter > 4194304 then none
   else (hashAlgOfName h).map fun a => baToNats (Crypto.pbkdf2 a (natsToBA pw) (natsToBA salt) iter.toNat dkLen)
 
 def inflateReal (x : Bs) : Option Bs :=
